@@ -18,6 +18,7 @@ import (
 	"google.golang.org/grpc/metadata"
 	"google.golang.org/protobuf/proto"
 	"verifsim/simkv"
+	"verifsim/simrt"
 )
 
 // In-process GRIP server for the simulator: a real server.GripServer over
@@ -88,6 +89,7 @@ type traversalStream struct {
 
 func (t *traversalStream) Send(r *gripql.QueryResult) error {
 	hyield("h:stream-send")
+	simrt.Progress() // a delivered row is progress
 	t.Rows = append(t.Rows, CanonRow(r))
 	t.N++
 	if t.OnRow != nil {
